@@ -200,6 +200,12 @@ def frac_part_corr(c, stream, cases_):
         c.stats[stream]["cases"] += 1
         want = ans if not (isinstance(ans, dict) and "sums" in ans) else {"sums": ans["sums"], "bins": ans["bins"]}
         if got != want:
+            if case["alg"] == "cbldm" and all(isinstance(x, dict) and len(x.get("sums", [])) == 2 for x in (got, want)) and \
+                    abs(got["sums"][0] - got["sums"][1]) > abs(want["sums"][0] - want["sums"][1]):
+                # the model's answer is optimal under the bound (CBLDMOpt.cbldm_optimal) and the problem scales (ExactSym.cbldm_value_scale)
+                c.fail("cbldm", dict(case, p=dict(case["p"], scaled_by=f"2^-{s_}")), "list", PT, "suboptimal", got,
+                       f"sum difference {abs(want['sums'][0] - want['sums'][1])} / 2^{s_} (the optimum under the bound) for the items {case['vals']} / 2^{s_}")
+                continue
             c.disagreements.append({"stream": stream, "alg": case["alg"], "case": case, "fmt": f"list/2^{s_}",
                                     "outtype": PT, "impl": got, "model": want, "request": "scaled by 2^-%d" % s_})
 
@@ -2472,8 +2478,16 @@ def C15(c):
     shared = [e for e in pool_cases if e["alg"] in ("greedy", "roundrobin", "multifit", "kk", "ff", "ffd", "bf", "bfd", "cover_decreasing", "twothirds",
                                                       "threequarters", "cg", "dp", "ckk", "snp", "cbldm") and len(e["vals"]) >= 2
               and not any(v > e["p"].get("B", 10 ** 12) for v in e["vals"]) and e["p"].get("cut") is None and e["p"].get("k", 2) == (2 if e["alg"] == "cbldm" else e["p"].get("k", 2))]
+    # ... and enough calls of the sorting heuristics (an order of the names remembered between calls only matters to them)
+    shared += [e for e in C.random_pack_cases(rng, C.PACKERS, c.n(14, 60), Bs=(12, 20, 100)) + C.random_cover_cases(rng, C.COVERS, c.n(14, 60), Bs=(12, 20, 31)) +
+               C.random_part_cases(rng, ["greedy", "roundrobin", "multifit", "kk"], c.n(14, 60), nmax=10) if len(e["vals"]) >= 3]
     rng.shuffle(shared)
-    for e in shared[: c.n(80, 600)]:
+    per_alg, picked = {}, []
+    for e in shared:                 # the same number of pairs for every algorithm (the pool is dominated by the searches)
+        if per_alg.get(e["alg"], 0) < c.n(10, 50):
+            per_alg[e["alg"]] = per_alg.get(e["alg"], 0) + 1
+            picked.append(e)
+    for e in picked:
         alg = ALGS[e["alg"]]
         names = names_for("dict_str", e["vals"], rng)
         d = {nm: v for nm, v in zip(names, e["vals"])}
@@ -2503,9 +2517,21 @@ def C15(c):
         newv = rng.choice([0, 1, d[names[j]] + 1, max(1, d[names[j]] // 2), min(e["p"].get("B", 10 ** 9), d[names[j]] + 3)])
         d[names[j]] = newv if newv <= e["p"].get("B", 10 ** 12) else d[names[j]]
         r2 = call(d, False)                 # the caller's own object, second call
-        r2_fresh = call(dict(d), True)      # the same contents in a brand-new object
+        def unprefix(x):
+            if isinstance(x, str):
+                return x[2:] if x.startswith("q:") else x
+            if isinstance(x, list):
+                return [unprefix(y) for y in x]
+            if isinstance(x, dict):
+                return {k_: unprefix(v_) for k_, v_ in x.items()}
+            return x
+        # the same contents in a brand-new object under NEW names (a common prefix keeps their order): nothing remembered about the caller's
+        # object, or about its names, can apply to this call
+        r2_fresh = unprefix(call({"q:" + nm: v for nm, v in d.items()}, True))
         c.evaluations += 3; c.corr_cases += 1
         c.stats["shared-object"]["pairs"] += 1
+        c.stats["shared-object"]["alg:" + e["alg"]] += 1
+        c.stats["shared-object"]["second-answer-differs-from-first"] += int(r2 != r1)
         label = dict(e["p"], vals=e["vals"], alg=e["alg"], outtype=ot.__name__, changed=names[j], new_value=d[names[j]], via="valueof" if use_valueof else "dict")
         same = r2 == r2_fresh or (e["alg"] in ("dp",) and not J._is_err(r2))
         c.check_direct(e["alg"], label, "history-dependent", same, r2, f"the result for the caller's dict after the change, as computed from a fresh copy of it: {json.dumps(r2_fresh, default=str)[:200]}")
